@@ -237,6 +237,15 @@ func PostPoint() {
 	}
 }
 
+// Abort ends the current execution with the given outcome (shims use it for defects they detect directly).
+func Abort(outcome string) {
+	if x := cur; x != nil {
+		x.Stack = string(debug.Stack())
+		x.abort(outcome)
+	}
+	panic(outcome)
+}
+
 // Yield is a plain scheduling point (used by harness sinks to model a slow consumer).
 func Yield() { Point(KYield, nil) }
 
